@@ -333,12 +333,12 @@ def trace_stage(prop, tier, name, seed, runs, nops):
     return res
 
 
-def inject_stage(prop, tier, name):
+def inject_stage(prop, tier, name, cfg="a"):
     """deterministic preemption injection: for every (handle kind x victim call x number of other owners x adversary
     action x injection point(s)) the adversary runs, as a second thread, right before the victim call's k-th count
     operation; the resulting two-thread executions are judged by ArcMMTrace like the recorded concurrent runs"""
     wd = workdir(prop)
-    exe = build_harness("a")
+    exe = build_harness(cfg)
     res = {"name": name, "states": 0, "transitions": 0, "evaluations": 0, "nontrivial": 0, "traces": 0, "samples": [],
            "violations": [], "notes": [], "exhaustive": True, "detail": {}}
     nd = os.path.join(wd, name + ".ndjson")
